@@ -297,6 +297,18 @@ func histOps(thorough bool) []histOp {
 	type scorer interface{ Score() float64 }
 	q("Score", always, func(o any) string { return fmt.Sprint(lib.Score(o)) })
 	q("Severity", always, func(o any) string { s, n := lib.Severity(o); return fmt.Sprint(s, n) })
+	// heavy use: a "hot object" optimisation only starts after many identical queries (round 6:
+	// thresholds 16, 1000, 1024, 2048); whatever it remembers must not survive a later mutation
+	q(fmt.Sprintf("Score and Severity, %d times", heavyRounds), always, func(o any) string {
+		var sc float64
+		var sv string
+		var n int
+		for i := 0; i < heavyRounds; i++ {
+			sc = lib.Score(o)
+			sv, n = lib.Severity(o)
+		}
+		return fmt.Sprint(sc, sv, n)
+	})
 	q("GetError", always, func(o any) string {
 		err := o.(interface{ GetError() error }).GetError()
 		if err == nil {
@@ -398,6 +410,38 @@ func histOps(thorough bool) []histOp {
 				return fmt.Sprintf("rejected %s panic=%q", lib.Class(err), pan)
 			}
 			return observables(o)
+		}})
+	}
+	// process history: a vector decoded THROUGH THE VIEWS of a nil receiver and of a fresh constructor
+	// result elsewhere — x := (nil).TemporalMetrics(); x.Decode(v) allocates its own object in the
+	// pinned library; an accessor that hands out one shared stand-in instead of nil would make every
+	// later view of a nil receiver show this vector (round 6, C15-B-r6)
+	for _, d := range []struct {
+		ver   int
+		s0, s string
+	}{{3, "CVSS:3.1/AV:N/AC:L/PR:N/UI:N/S:U/C:H/I:H/A:H", "CVSS:3.1/AV:N/AC:L/PR:N/UI:N/S:U/C:H/I:H/A:H/E:F/RL:O/RC:C"}, {2, "AV:N/AC:L/Au:N/C:C/I:C/A:C", "AV:N/AC:L/Au:N/C:C/I:C/A:C/E:F/RL:OF/RC:C"}} {
+		d := d
+		ops = append(ops, histOp{name: fmt.Sprintf("decode-elsewhere through the views of nil receivers and of fresh objects v%d %s", d.ver, d.s), kind: 'd', ok: always, run: func(any) string {
+			var b strings.Builder
+			for level := 1; level < 3; level++ {
+				for _, recv := range []any{lib.Nil(d.ver, level), lib.New(d.ver, level)} {
+					for lv := level - 1; lv >= 0; lv-- {
+						b.WriteString(safeRun(func() string {
+							view := lib.Sub(recv, lv)
+							in := d.s0
+							if lv == 1 {
+								in = d.s
+							}
+							o, err, pan := lib.Decode(view, in)
+							if o == nil {
+								return fmt.Sprintf("rejected %s panic=%q;", lib.Class(err), pan)
+							}
+							return observables(o) + ";"
+						}))
+					}
+				}
+			}
+			return b.String()
 		}})
 	}
 	// process history: reports built elsewhere with unusual option lists (a nil option panics in
